@@ -30,6 +30,8 @@ Judge(e) ==
                   \* (the document and the identifier map come from two calls on two containers: each has to be an outcome, not both the same one)
                   \* a run without tie and without ambiguity has one outcome: nothing to look for (and the set-valued reading is costly)
                   ELSE IF ~(run.tie \/ run.amb) THEN (IF e.res.text # DocOf(D, run.canon) THEN "differs-from-w3c-rdfc10" ELSE "idmap-differs")
+                  \* with the 48-byte digest the set-valued reading is too costly: where the text leaves a choice a differing answer is not judged
+                  ELSE IF Wide THEN "ok"
                   ELSE LET cs == OutcomeCanons(D) IN
                        IF ~\E c \in cs : DocOf(D, c) = e.res.text THEN "differs-from-w3c-rdfc10"
                        ELSE IF ~\E c \in cs : idmapOk(c) THEN "idmap-differs" ELSE "ok"
